@@ -289,9 +289,15 @@ def family_options():
                             threads = int(o.split()[1])
                     depth = '-depth' in seq
                     want = 'RunOptions { depth: %s, threads: %s }' % ('true' if depth else 'false', 'Some(%d)' % threads if threads is not None else 'None')
-                    yield dict(op='parse', input=' '.join(words), also=('parse', ' '.join(ref) if ref else '-true'),
-                               expect='%s and the tree of `%s`' % (want, ' '.join(ref)),
-                               bad=(lambda g, g2, want=want: g[0] != 'OK' or g2[0] != 'OK' or g[1] != want or g[2] != g2[2]))
+                    tail = ('\n        %d))\n' % threads) if threads is not None else '\n        (lipe-getopt-thread-count)))\n'
+
+                    def bad(g, g2, g3, want=want, tail=tail):
+                        if g[0] != 'OK' or g2[0] != 'OK' or g[1] != want or g[2] != g2[2]:
+                            return True
+                        # … and the value reaches the emitted scan call (its last argument)
+                        return g3[0] == 'OK' and tail not in g3[1]
+                    yield dict(op='parse', input=' '.join(words), also3=(('parse', ' '.join(ref) if ref else '-true'), ('compile', ' '.join(words))),
+                               expect='%s, the tree of `%s`, and that thread count as the last argument of the scan call' % (want, ' '.join(ref)), bad=bad)
 
 
 def family_parse_total():
@@ -342,6 +348,35 @@ def family_parse_numbers():
                 yield dict(op='parse', input=txt, expect=want, bad=(lambda g, want=want: g[0] != 'OK' or g[2] != want))
             else:
                 yield dict(op='parse', input=txt, expect='rejected', bad=lambda g: g[0] == 'OK')
+    # signs with every size unit, unknown unit letters
+    for unit, node in (('c', 'Byte'), ('w', 'Word'), ('b', 'Block'), ('k', 'KiloByte'), ('M', 'MegaByte'), ('G', 'GigaByte'), ('T', 'TeraByte'), ('', 'Block')):
+        for pre, cmp_ in (('+', 'GreaterThan'), ('-', 'LesserThan')):
+            for digits, v in (('7', 7), ('007', 7), ('36028797018963968', 2 ** 55)):
+                want = 'Test(Size(%s(%s(%d))))' % (cmp_, node, v)
+                yield dict(op='parse', input='-size %s%s%s' % (pre, digits, unit), expect=want, bad=(lambda g, want=want: g[0] != 'OK' or g[2] != want))
+    for bad_unit in ('K', 'm', 'g', 't', 'kb', 'B', 'x', 'kk'):
+        yield dict(op='parse', input='-size 3%s' % bad_unit, expect='rejected', bad=lambda g: g[0] == 'OK')
+    # time tests: keyword -> field and default unit, suffix -> unit, signs, leading zeros, range
+    for kw, node, dflt in (('-atime', 'AccessTime', 'Day'), ('-amin', 'AccessTime', 'Minute'), ('-ctime', 'ChangeTime', 'Day'), ('-cmin', 'ChangeTime', 'Minute'),
+                           ('-mtime', 'ModifyTime', 'Day'), ('-mmin', 'ModifyTime', 'Minute')):
+        for suffix, unit in (('', dflt), ('s', 'Second'), ('m', 'Minute'), ('h', 'Hour'), ('d', 'Day')):
+            for pre, cmp_ in (('', 'Equal'), ('+', 'GreaterThan'), ('-', 'LesserThan')):
+                for digits, v in (('0', 0), ('5', 5), ('005', 5), (str(u64max), u64max), (str(u64max + 1), u64max + 1)):
+                    txt = '%s %s%s%s' % (kw, pre, digits, suffix)
+                    if v <= u64max:
+                        want = 'Test(%s(%s(%s(%d))))' % (node, cmp_, unit, v)
+                        yield dict(op='parse', input=txt, expect=want, bad=(lambda g, want=want: g[0] != 'OK' or g[2] != want))
+                    else:
+                        yield dict(op='parse', input=txt, expect='rejected', bad=lambda g: g[0] == 'OK')
+        for bad_unit in ('x', 'D', 'w', 'ms', 'S'):
+            yield dict(op='parse', input='%s 3%s' % (kw, bad_unit), expect='rejected', bad=lambda g: g[0] == 'OK')
+    # file types: letter table, order and repeats kept
+    for arg, want in (('f', '[File]'), ('d', '[Directory]'), ('l', '[Link]'), ('b', '[Block]'), ('c', '[Character]'), ('p', '[Pipe]'), ('s', '[Socket]'),
+                      ('f,d', '[File, Directory]'), ('d,f', '[Directory, File]'), ('s,p,l', '[Socket, Pipe, Link]'), ('f,f', '[File, File]')):
+        w2 = 'Test(Type(%s))' % want
+        yield dict(op='parse', input='-type ' + arg, expect=w2, bad=(lambda g, w2=w2: g[0] != 'OK' or g[2] != w2))
+    for arg in ('x', 'F', 'fd', 'f,', ',f', 'f,,d', 'D'):
+        yield dict(op='parse', input='-type ' + arg, expect='rejected', bad=lambda g: g[0] == 'OK')
     for v in (0, 3, u32max, u32max + 1):
         txt = '-threads %d -true' % v
         if v <= u32max:
@@ -588,6 +623,22 @@ def family_grammar(n=None):
         yield dict(op='compile', input=e, expect='a program or an error value, never a panic', bad=lambda g: g[0] == 'PANIC')
 
 
+def family_grammar_structure():
+    """the grammar-generated expressions again, with the structural demands every accepted one must meet: the program reads as
+    Scheme (independent reader: strings terminated, known escapes, no comment, balanced), the let* header binds each generated name
+    once and the body mentions bound names only, frame tags are the keys of the reported table, and plain mode reports no table"""
+    def bad(g):
+        if g[0] != 'OK':
+            return False
+        try:
+            scheme_read(g[1])
+        except SchemeSyntax:
+            return True
+        return program_defects(g[1], g[2] if len(g) > 2 else '') is not None
+    for c in family_grammar(n=200000 if TIER == 'thorough' else 6000):
+        yield dict(op='compile', input=c['input'], expect='reads as Scheme; names bound once and before use; frame tags = table keys', bad=bad)
+
+
 def family_refusal():
     atoms = [('-true', {}), ('-name x', {}), ('-print', {}), ('-regex r', {'bad': True}), ('-ls', {'bad': True}), ('nope', {'bad': True}),
              ('-printf "%p"', {}), ('-printf "%Z"', {'bad': True})]
@@ -782,7 +833,9 @@ def query_trees():
               ('Global(Threads(2))', False, False), ('Positional(XDev)', False, False),
               ('Action(Print)', True, False), ('Action(PrintNull)', True, True), ('Action(FilePrint("f"))', True, True), ('Action(FilePrintNull("f"))', True, True),
               ('Action(FilePrintFormatted("f", [Literal("x"), %s]))' % nl, True, True), ('Action(FilePrintFormatted("f", []))', True, True),
-              ('Action(FileList("f"))', True, True), ('Action(List)', True, False), ('Action(Quit)', True, False), ('Action(Prune)', True, False),
+              ('Action(FileList("f"))', True, True), ('Action(FilePrint(""))', True, True), ('Action(FilePrintNull(""))', True, True), ('Action(FileList(""))', True, True),
+              ('Action(FilePrintFormatted("", [%s]))' % nl, True, True), ('Action(FilePrint(" "))', True, True), ('Action(FilePrint("\\n"))', True, True),
+              ('Action(List)', True, False), ('Action(Quit)', True, False), ('Action(Prune)', True, False),
               ('Action(PrintFid)', True, False), ('Action(DefaultPrint)', True, False),
               ('Action(PrintFormatted([]))', True, False), ('Action(PrintFormatted([%s]))' % nl, True, False), ('Action(PrintFormatted([Literal("a")]))', True, True),
               ('Action(PrintFormatted([%s, Literal("a")]))' % nl, True, True), ('Action(PrintFormatted([Field(Name), %s]))' % nl, True, False),
@@ -795,7 +848,9 @@ def query_trees():
         out += [('%s(%s)' % (o, t), a, f) for t, a, f in leaves]
     for o in bi:
         out += [('%s(%s, %s)' % (o, t1, t2), a1 or a2, f1 or f2) for t1, a1, f1 in leaves for t2, a2, f2 in leaves]
-    core = [leaves[i] for i in (0, 1, 3, 6, 7, 8, 20)]
+    pick = ('Test(True)', 'Test(False)', 'Global(Depth)', 'Action(Print)', 'Action(PrintNull)', 'Action(FilePrint("f"))', 'Action(FilePrint(""))', 'Action(PrintFormatted([Literal("a")]))')
+    core = [l for l in leaves if l[0] in pick]
+    assert len(core) == len(pick)
     for o1 in bi:
         for o2 in bi + un:
             for x in core:
@@ -1063,6 +1118,11 @@ def family_perm(full=None):
         arg = w + o + p
         val = None if o == '-' else chmod(o, wmask(w), pmask(p), 0)
         yield rel(arg, val)
+    # repeated and reordered letters denote the same sets
+    for (w, o, p) in (('uu', '+', 'r'), ('g', '+', 'rr'), ('o', '+', 'ww'), ('u', '=', 'xx'), ('a', '+', 'wrw'), ('gug', '=', 'xrx'), ('oo', '+', 'xwr'), ('ug', '+', 'rwxrwx'),
+                      ('aa', '=', 'rr'), ('ou', '+', 'xr'), ('g', '=', 'wwx')):
+        yield rel(w + o + p, chmod(o, wmask(w), pmask(p), 0))
+        yield rel('u=rwx,' + w + o + p, chmod(o, wmask(w), pmask(p), 0o700))
     small = [(w, o, p) for w in ('u', 'go', 'a') for o in '+-=' for p in ('r', 'wx', 'rwx')]
     pool = clauses if full else small
     for c1 in pool:
@@ -1072,6 +1132,28 @@ def family_perm(full=None):
             if c1[1] != '-' and c2[1] != '-':
                 val = chmod(c2[1], wmask(c2[0]), pmask(c2[2]), chmod(c1[1], wmask(c1[0]), pmask(c1[2]), 0))
             yield rel(arg, val)
+
+
+def family_parse_refusal():
+    """C12 (front end, bounded): every primary the target cannot express stays refused whatever its argument looks like (names that
+    start with digits, pure numbers, quoted words with blanks, patterns), alone and inside small expressions; and the supported
+    neighbours of those keywords keep compiling"""
+    args = ['bob', 'root', '3com', '0day', '1000', '0', '42abc', "'42 is the answer'", '4294967296', 'lustre', '*.c', 'a/b', '-1', '+5', "'x y'", 'f', 'd', '007']
+    unsupported = ['-user', '-group', '-fstype', '-regex', '-iregex', '-samefile', '-lname', '-ilname', '-anewer', '-cnewer', '-mnewer', '-fls']
+    for kw in unsupported:
+        for a in args:
+            for shape in ('%s %s', '-true -o %s %s', '! %s %s', '-name x -a ( %s %s )', '%s %s -print'):
+                yield dict(op='compile', input=shape % (kw, a), expect='refused (or rejected), never compiled', bad=lambda g: g[0] == 'OK')
+    for kw in ('-nouser', '-nogroup', '-ls', '-prune', '-xdev'):
+        for shape in ('%s', '-true -o %s', '! %s', '-name x %s', '%s -print'):
+            yield dict(op='compile', input=shape % kw, expect='refused (or rejected), never compiled', bad=lambda g: g[0] == 'OK')
+    for kw in ('-maxdepth', '-mindepth'):
+        for a in ('0', '1', '3', '4294967295'):
+            yield dict(op='compile', input='%s %s -true' % (kw, a), expect='refused (or rejected), never compiled', bad=lambda g: g[0] == 'OK')
+    for ok in ('-uid 3', '-gid 0', '-name 3com', '-iname 0day', '-path 1000', '-pool 42abc', '-xattr 007', '-type f', '-newer x'):
+        if ok.startswith('-newer'):
+            continue
+        yield dict(op='compile', input=ok, expect='compiles', bad=lambda g: g[0] != 'OK')
 
 
 def family_ast_refusal():
@@ -1144,7 +1226,7 @@ def family_hostile():
 
 GENERATED = {
     'BOUNDED.clock_window': family_clock, 'C07.time_comp.text': family_clock,
-    'BOUNDED.parse_perm': family_perm, 'BOUNDED.parse_options': family_options, 'BOUNDED.parse_total': (family_parse_total, family_grammar), 'BOUNDED.parse_numbers': family_parse_numbers,
+    'BOUNDED.parse_refusal': family_parse_refusal, 'BOUNDED.parse_perm': family_perm, 'BOUNDED.parse_options': family_options, 'BOUNDED.parse_total': (family_parse_total, family_grammar), 'BOUNDED.parse_numbers': family_parse_numbers,
     'ASSUME.printer_map': family_table, 'C10.table.keys': family_table,
     'C09.top.wrap_decision': family_wrap, 'C19.action.iff': family_wrap, 'C09.emit.structure': family_wrap,
     'C12.refusal.iff': family_refusal, 'C12.top.iff': family_refusal,
@@ -1164,11 +1246,12 @@ FAMILY_RULES = [
     (r'^C19\.(mult|secs|byte_size)|^C07\.byte_size', (family_units,)),
     (r'^C10\.top\.manager_choice|^C10\.table\.iff_framed|^C10\.top\.table_iff', (family_frames,)),
     (r'^C20\.', (family_renders, family_hostile, family_noninterference)),
-    (r'^C04\.|matcher\.text|file_port\.text|matcher_ref|printf_ref', (family_noninterference,)),
+    (r'^C04\.|matcher\.text|file_port\.text|matcher_ref|printf_ref', (family_noninterference, family_grammar_structure)),
+    (r'^C1[01]\.', (family_grammar_structure,)),
     (r'\.matcher\.|get_matcher|matcher_name|matcher_ref', (family_matchers, family_hostile, family_long, family_ast_structure)),
     (r'\.(printer|file_port|default_port)\.|get_printer|get_file_printer|printer_name|printer_ref|printf_ref|^C10\.(table|top|routing|terminator_text)|\.definitions$',
      (family_table, family_long, family_determinism, family_ast_structure)),
-    (r'^C12\.', (family_refusal, family_ast_refusal)),
+    (r'^C12\.', (family_refusal, family_ast_refusal, family_parse_refusal)),
     (r'^C09\.|^C19\.action', (family_wrap, family_wrap_body)),
     (r'^SAFETY\.|^C11\.budget', (family_panics, family_long, family_ast, family_perm, family_grammar)),
     (r'^C08\.|^KANI\.c08', (family_perm,)),
@@ -1249,11 +1332,15 @@ BOUNDED_STANDINS = {
              'four single-character mutations at every position of 6 valid inputs, long / non-ASCII words after 12 keywords, and 20,000 (thorough: 200,000) '
              'grammar-generated expressions over every keyword with boundary numbers, modes and format strings (parsed and compiled): never a panic')],
     'C07': [('BOUNDED.parse_numbers', 'BOUNDED.parse_numbers', 'the digit-run conversions of find_parser (winnow try_map over str::parse: outside the verifier) — bounded '
-             'stand-in: decimal arguments around 0, 2^31, 2^32, 2^64 and 10^30 for every numeric primary, with signs and leading zeros: exact in the tree or rejected')],
+             'stand-in: decimal arguments around 0, 2^31, 2^32, 2^55, 2^64 and 10^30 for every numeric primary, with signs, leading zeros, every size and time unit letter '
+             '(and unknown ones), the default units, the -type letter table: exact in the tree or rejected')],
     'C08': [('BOUNDED.parse_perm', 'BOUNDED.parse_perm', 'PermCheck::parse / Permission::parse (winnow alt/preceded/separated over the verified clause code: outside the verifier) — '
              'bounded stand-in: for all 4096 octal values in 3- and 4-digit spelling, all 315 single clauses and two-clause lists (81 in the quick tier, all 99,225 in the '
              'thorough tier), the prefix selects the check and nothing else (`-A` = all bits of V, `/A` = some bit of V, V the value of plain `A`); octal arguments '
              'denote their value, longer or larger digit runs are rejected; lists without a `-` clause equal chmod\'s result')],
+    'C12': [('BOUNDED.parse_refusal', 'BOUNDED.parse_refusal', 'the keyword table of find_parser (which node a keyword and its argument parse to: winnow combinators, outside the verifier) — '
+             'bounded stand-in: each of the 19 primaries and options the target cannot express, with 18 argument spellings (names starting with digits, numbers, quoted '
+             'words, patterns) in 5 expression shapes, is refused or rejected and never compiled; their supported neighbours compile')],
     'C10': [('BOUNDED.printer_map', 'ASSUME.printer_map',
              'DistributedSchemeManager::printer_map (iterator over the hash map: external_body) — bounded stand-in: all expressions of up to 3 '
              'output actions over 6 destination/terminator kinds; the table must be the inverse of the tag map')],
@@ -1271,7 +1358,7 @@ def profile_agreement(repo, scratch):
         f['witness_error'] = 'could not build both profiles'
         return f
     reqs, seen = [], set()
-    for fam in (family_parse_total, family_parse_numbers, family_options, family_numbers, family_refusal, family_hostile, family_table, family_panics, family_long, family_ast, family_perm, family_grammar):
+    for fam in (family_parse_total, family_parse_numbers, family_options, family_numbers, family_refusal, family_hostile, family_table, family_panics, family_long, family_ast, family_perm, family_grammar, family_parse_refusal):
         for c in fam():
             for op_, inp_ in [(c['op'], c['input'])] + ([c['also']] if c.get('also') else []) + list(c.get('also3', ())):
                 r = (op_,) + tuple(inp_.split('\t'))
